@@ -1,5 +1,6 @@
 import Driver.Util
 import NutsModel.C20.Strict
+import NutsModel.C20.Outbound
 import NutsModel.Facts.C20
 open Lean Nuts.Drv Nuts.C18 Nuts.C20 Nuts
 
@@ -117,6 +118,28 @@ def step (st : Unit) (j : Json) : Unit × List String :=
         let rs := reqs.map fun r => s!"{ascii r.scheme}://{ascii r.host}"
         s!"do reqs=[{String.intercalate "," rs}] out={o}"
       | _ => "do bad-request"
+    | "cap" =>
+      -- byte-level Do: cap / reader limit / comparison are the REGENERATED definitions
+      let locs := (jStrs j "locs").toArray
+      let wire : Bytes := List.replicate (jNat j "body") 97
+      let srv : Nat → Req → Option (Resp × Bytes) := fun hop _ =>
+        match locs[hop]? with
+        | some l => some ({ status := 302, loc := bytesOf l }, [])
+        | none => some ({ status := 200 }, wire)
+      match parseURL (bytesOf (jStr j "first")) with
+      | .ok u =>
+        let first : Req := { scheme := u.scheme, host := u.host, path := escapedPath u }
+        let (reqs, out) := strictDoBytes policy (jBool j "strict") Nuts.Facts.C20.responseReadLimit Nuts.Facts.C20.responseTooLarge srv first
+        let o := match out with
+          | .ok (r, body) => s!"ok:{r.status} len={body.length} same={body == wire}"
+          | .err "http:strict" => "refuse:first-not-https"
+          | .err "http:redirect-refused" => "refuse:redirect-not-https"
+          | .err "http:too-many-redirects" => "refuse:too-many-redirects"
+          | .err "http:toolarge" => "refuse:too-large"
+          | .err e => "error:" ++ e
+          | .panic p => "panic:" ++ p
+        s!"cap reqs={reqs.length} out={o}"
+      | _ => "cap bad-request"
     | o => "bad-op:" ++ o
   (st, [line])
 
